@@ -17,6 +17,11 @@ theorem c01_tables_complete :
     Gen.Dispatch.unrecognised = [] ∧ Gen.Dispatch.duplicateAssignments = 0 ∧
     Gen.Dispatch.missingAssignments = 0 := by decide
 
+/-- the tables (and the early-finish tests, which close over the flags of ONE cpu) are fields of the CPU:
+    dispatch.go declares no package-level variable, as the model (tables + instruction in flight inside
+    `Cpu`) assumes -/
+theorem c01_tables_per_cpu : Gen.Dispatch.packageVars = [] := by decide
+
 /-- exactly the 11 documented opcodes (and the CB prefix slot) are undefined -/
 theorem c01_undefined :
     (List.range 256).filter (fun op => (decode op).isNone) =
